@@ -159,8 +159,8 @@ func (c04Engine) Gen(seed uint64, idx int, tier string) interface{} {
 			sc.Visitor = append(sc.Visitor, [2]int{-1, fr.Intn(nReplacementKinds)})
 		}
 	}
-	names := []string{"CI", "CS", "CB", "C64", "F1", "Nope", "A", "Xs", "Fn", "Va", ""}
-	opFns := []string{"OpA", "OpB", "F1", "F2", "Nope", "A", "G0", "CS"}
+	names := []string{"CI", "CS", "CB", "C64", "F1", "Nope", "A", "Xs", "Fn", "Va", "", "Any", "On", "Tup"}
+	opFns := []string{"OpA", "OpB", "F1", "F2", "Nope", "A", "G0", "CS", "Any", "On", "Mp", "Fn", "An"}
 	for j := 0; j < 6; j++ {
 		var o C04Opt
 		o.NoEnv = fr.Chance(1, 6)
